@@ -142,7 +142,8 @@ type world struct {
 	htltCreated, htltClaimed, oracleRandom, seedProviders, timePromoBindings int
 	discardedAfterExec, historyShortened, foreignProviders                   int
 	autoPaused, foreignPriced, priceCalls, hugePrices, farRandom             int
-	rateTemplates                                                            int
+	rateTemplates, nftTwinIDs, toEscrow                                      int
+	escrows                                                                  map[string]bool // pool escrow addresses named as recipients
 }
 
 // shapeClasses names the rarer shapes this history contained (accepted transactions only).
@@ -167,6 +168,8 @@ func (w *world) shapeClasses() []string {
 	add(w.hugePrices > 0, "binding-price>=2^63")
 	add(w.rateTemplates > 0, "exchange-rate-template")
 	add(w.farRandom > 0, "random-request-due-beyond-2^31")
+	add(w.nftTwinIDs > 0, "nft-id-used-in-two-classes")
+	add(w.toEscrow > 0, "coins-sent-to-a-pool-escrow-by-a-third-party")
 	return cl
 }
 
@@ -385,6 +388,14 @@ func (h *hist) nextTx(t *rapid.T) (txSpec, bool) {
 		// an account with a running obligation (consumer of a request context, creator of a feed) moves its stake away:
 		// the next batch cannot be charged and the end blocker pauses the context on its own; or a drained account is
 		// topped up again
+		if pools := k.Coinswap.GetAllPools(ctx); len(pools) > 0 && rapid.IntRange(0, 2).Draw(t, "toescrow") == 0 {
+			to := pick(t, "escrow", pools).EscrowAddress
+			if w.escrows == nil {
+				w.escrows = map[string]bool{}
+			}
+			w.escrows[to] = true
+			return txSpec{u, h.enc(&banktypes.MsgSend{FromAddress: me, ToAddress: to, Amount: coins("stake", int64(rapid.IntRange(1, 9).Draw(t, "dust")))})}, true
+		}
 		var cands []int
 		for _, c := range w.ctxs {
 			cands = append(cands, c.Consumer)
@@ -438,12 +449,26 @@ func (h *hist) nextTx(t *rapid.T) (txSpec, bool) {
 		return txSpec{u, h.enc(&randomtypes.MsgRequestRandom{BlockInterval: interval, Consumer: me})}, true
 	case "nft":
 		switch a := rapid.IntRange(0, 5).Draw(t, "nftop"); {
-		case a == 0 || len(w.nftDenoms) == 0:
+		case a == 0 || len(w.nftDenoms) == 0 || (len(w.nftDenoms) == 1 && len(w.nfts) > 0 && a <= 3):
 			return txSpec{u, h.enc(&nfttypes.MsgIssueDenom{Id: fmt.Sprintf("cls%d", s), Name: "class", Schema: "{}", Sender: me, Symbol: "sym",
 				MintRestricted: rapid.Bool().Draw(t, "mr"), UpdateRestricted: rapid.Bool().Draw(t, "ur"), Description: "d", Uri: "u", UriHash: "h", Data: `{"k":"v"}`})}, true
 		case a <= 2 || len(w.nfts) == 0:
 			d := pick(t, "denom", w.nftDenoms)
-			return txSpec{d.Owner, h.enc(&nfttypes.MsgMintNFT{Id: fmt.Sprintf("nft%d", s), DenomId: d.ID, Name: "n", URI: "u", Data: `{"x":1}`, Sender: h.addr(d.Owner), Recipient: h.addr(h.user(t, "rcpt")), UriHash: "h"})}, true
+			id := fmt.Sprintf("nft%d", s)
+			if len(w.nfts) > 0 && rapid.IntRange(0, 2).Draw(t, "sameid") != 0 {
+				// token ids are unique per class only: reuse the id of a token of another class
+				x := pick(t, "twin", w.nfts)
+				free := x.Denom != d.ID
+				for _, y := range w.nfts {
+					if y.Denom == d.ID && y.ID == x.ID {
+						free = false
+					}
+				}
+				if free {
+					id = x.ID
+				}
+			}
+			return txSpec{d.Owner, h.enc(&nfttypes.MsgMintNFT{Id: id, DenomId: d.ID, Name: "n", URI: "u", Data: `{"x":1}`, Sender: h.addr(d.Owner), Recipient: h.addr(h.user(t, "rcpt")), UriHash: "h"})}, true
 		case a == 3:
 			x := pick(t, "nft", w.nfts)
 			return txSpec{x.Owner, h.enc(&nfttypes.MsgTransferNFT{Id: x.ID, DenomId: x.Denom, Name: "[do-not-modify]", URI: "[do-not-modify]", Data: "[do-not-modify]", UriHash: "[do-not-modify]", Sender: h.addr(x.Owner), Recipient: h.addr(h.user(t, "rcpt"))})}, true
@@ -502,6 +527,15 @@ func (h *hist) nextTx(t *rapid.T) (txSpec, bool) {
 		switch a {
 		case 0, 1, 2:
 			rcpt := h.addr(h.user(t, "rcpt"))
+			if rapid.IntRange(0, 4).Draw(t, "toescrow") == 0 {
+				// a third party names a pool's escrow account as the recipient (a donation to the reserve): what the
+				// chain answers must not depend on what this process has executed since it started
+				rcpt = pick(t, "escrow", pools).EscrowAddress
+				if w.escrows == nil {
+					w.escrows = map[string]bool{}
+				}
+				w.escrows[rcpt] = true
+			}
 			if rapid.Bool().Draw(t, "sell") {
 				in, out := "stake", denom
 				if rapid.Bool().Draw(t, "dir") {
@@ -981,7 +1015,21 @@ func (h *hist) observe(op blockOp, resp *abci.ResponseFinalizeBlock) {
 			switch x := m.(type) {
 			case *nfttypes.MsgIssueDenom:
 				w.nftDenoms = append(w.nftDenoms, hDenom{x.Id, tx.User})
+			case *coinswaptypes.MsgSwapOrder:
+				if w.escrows[x.Output.Address] {
+					w.toEscrow++
+				}
+			case *banktypes.MsgSend:
+				if w.escrows[x.ToAddress] {
+					w.toEscrow++
+				}
 			case *nfttypes.MsgMintNFT:
+				for _, y := range w.nfts {
+					if y.ID == x.Id && y.Denom != x.DenomId {
+						w.nftTwinIDs++
+						break
+					}
+				}
 				w.nfts = append(w.nfts, hNFT{x.DenomId, x.Id, userIndex(h.n, x.Recipient)})
 			case *nfttypes.MsgTransferNFT:
 				for j := range w.nfts {
